@@ -40,6 +40,8 @@ def run_cfg(chk, facts, cfg):
     if not chk.anchor('Interval+constructors' + sfx, m if m.ok() else None):
         chk.notes.extend(m.problems)
         return
+    from ..overrides import obligation as no_overrides
+    no_overrides(chk, PID, facts, sfx, [m.path], 'comparison operators of Interval (<, <=, !=, ... follow from partial_cmp / eq)')
     pc = facts.trait_method('core::cmp::PartialOrd', m.path, 'partial_cmp')
     eq = facts.trait_method('core::cmp::PartialEq', m.path, 'eq')
     if not (chk.anchor('Interval::partial_cmp' + sfx, pc) and chk.anchor('Interval::eq' + sfx, eq)):
